@@ -163,6 +163,11 @@ func writeExpr(b *strings.Builder, x ast.Expr) {
 		b.WriteString("[")
 		writeExpr(b, n.Index)
 		b.WriteString("]")
+	case *ast.TypeAssertExpr:
+		writeExpr(b, n.X)
+		b.WriteString(".(")
+		writeExpr(b, n.Type)
+		b.WriteString(")")
 	case *ast.StarExpr:
 		b.WriteString("*")
 		writeExpr(b, n.X)
@@ -212,6 +217,11 @@ func (e *Enc) resolveType(pkg *ssa.Package, s string) types.Type {
 		return types.NewSlice(types.Typ[types.Int])
 	case "[]byte":
 		return types.NewSlice(types.Typ[types.Uint8])
+	}
+	if strings.HasPrefix(s, "*") && !strings.ContainsAny(s[1:], "[]* ") {
+		if t := e.resolveType(pkg, s[1:]); t != nil {
+			return types.NewPointer(t)
+		}
 	}
 	if i := strings.LastIndex(s, "."); i > 0 && !strings.ContainsAny(s, "[]* ") {
 		// qualified name: search every loaded package with that name
@@ -482,6 +492,19 @@ func (e *Enc) evalExpr(x ast.Expr, env *Env) Val {
 		}
 		return e.bad("unknown name", x)
 	case *ast.UnaryExpr:
+		if n.Op == token.AND {
+			// &x for a local variable that lives in memory (its debug references are addresses): the address
+			if id, ok := n.X.(*ast.Ident); ok {
+				for _, r := range e.dbg[id.Name] {
+					if r.isAddr {
+						if v := e.val(r.val); !v.Bad && len(v.L) == 2 {
+							return v
+						}
+					}
+				}
+			}
+			return e.bad("address of something that is not a local variable in memory", n)
+		}
 		sub := env
 		if n.Op == token.NOT {
 			sub = env.flip()
@@ -1087,15 +1110,96 @@ func (e *Enc) evalCall(n *ast.CallExpr, env *Env) Val {
 		bv := fmt.Sprintf("%s!q%d", id.Name, e.n)
 		v := Val{T: t, L: []string{bv}}
 		inner := env.with(id.Name, v)
+		// forall(k, trig(term, P)): the quantifier is instantiated only where `term` matches (needed for defining
+		// equations of recursive spec functions, which otherwise feed their own trigger)
+		pattern := ""
+		if tc, ok := body.(*ast.CallExpr); ok && callNameOf(tc) == "trig" && len(tc.Args) == 2 {
+			tv := e.evalExpr(tc.Args[0], inner)
+			if tv.Bad || len(tv.L) != 1 {
+				return e.bad("trig(term, P): bad trigger term", n)
+			}
+			pattern = tv.L[0]
+			body = tc.Args[1]
+		}
 		p := e.evalExpr(body, inner)
 		if p.Bad {
 			return p
 		}
 		tf := e.typeFacts(v, env.st)
+		if fname == "forall" && pattern != "" {
+			return Val{T: boolT, L: []string{fmt.Sprintf("(forall ((%s %s)) (! %s :pattern (%s)))", bv, m.smtSort(ls[0]), implies(tf, p.L[0]), pattern)}}
+		}
 		if fname == "forall" {
 			return Val{T: boolT, L: []string{fmt.Sprintf("(forall ((%s %s)) %s)", bv, m.smtSort(ls[0]), implies(tf, p.L[0]))}}
 		}
 		return Val{T: boolT, L: []string{fmt.Sprintf("(exists ((%s %s)) %s)", bv, m.smtSort(ls[0]), and(tf, p.L[0]))}}
+	case "bstr":
+		// bstr(b): the text written so far to the strings.Builder b points to (ghost: the Str cell at b's address)
+		a := e.evalExpr(n.Args[0], env)
+		if a.Bad || len(a.L) != 2 {
+			return e.bad("bstr(pointer to strings.Builder)", n)
+		}
+		e.needStr()
+		return Val{T: types.Typ[types.String], L: []string{e.sel2(e.heap(env.st, SStr), a.L[0], a.L[1])}}
+	case "scat":
+		a, b := e.evalExpr(n.Args[0], env), e.evalExpr(n.Args[1], env)
+		if a.Bad || b.Bad {
+			return Val{Bad: true}
+		}
+		e.needScat()
+		return Val{T: types.Typ[types.String], L: []string{"(scat " + a.L[0] + " " + b.L[0] + ")"}}
+	case "ssub":
+		a, i, j := e.evalExpr(n.Args[0], env), e.evalExpr(n.Args[1], env), e.evalExpr(n.Args[2], env)
+		if a.Bad || i.Bad || j.Bad {
+			return Val{Bad: true}
+		}
+		e.needSsub()
+		return Val{T: types.Typ[types.String], L: []string{"(ssub " + a.L[0] + " " + e.coerceInt(i, SI) + " " + e.coerceInt(j, SI) + ")"}}
+	case "bytestr":
+		a := e.evalExpr(n.Args[0], env)
+		if a.Bad {
+			return a
+		}
+		e.needBytestr()
+		return Val{T: types.Typ[types.String], L: []string{"(bytestr " + e.coerceInt(a, SI) + ")"}}
+	case "runestr":
+		a := e.evalExpr(n.Args[0], env)
+		if a.Bad {
+			return a
+		}
+		e.needUTF8()
+		return Val{T: types.Typ[types.String], L: []string{"(runestr " + e.coerceInt(a, SI) + ")"}}
+	case "utf8r", "utf8w":
+		a, k := e.evalExpr(n.Args[0], env), e.evalExpr(n.Args[1], env)
+		if a.Bad || k.Bad {
+			return Val{Bad: true}
+		}
+		e.needUTF8()
+		t := types.Typ[types.Int]
+		if fname == "utf8r" {
+			t = types.Typ[types.Int32]
+		}
+		return Val{T: t, L: []string{"(" + fname + " " + a.L[0] + " " + e.coerceInt(k, SI) + ")"}}
+	case "utf8valid":
+		a, k := e.evalExpr(n.Args[0], env), e.evalExpr(n.Args[1], env)
+		if a.Bad || k.Bad {
+			return Val{Bad: true}
+		}
+		e.needUTF8()
+		return Val{T: boolT, L: []string{"(utf8valid " + a.L[0] + " " + e.coerceInt(k, SI) + ")"}}
+	case "iterpos":
+		// iterpos(): in a loop invariant of a range-over-string loop, the byte position the next iteration decodes at
+		if env.loop == nil {
+			return e.bad("iterpos() outside a loop invariant", n)
+		}
+		for _, ins := range env.loop.head.Instrs {
+			if nx, ok := ins.(*ssa.Next); ok && nx.IsString {
+				if it, ok := e.vals[nx.Iter]; ok && !it.Bad && len(it.L) == 1 {
+					return Val{T: types.Typ[types.Int], L: []string{e.sel2(e.heap(env.st, SI), it.L[0], e.M.ilit(0))}}
+				}
+			}
+		}
+		return e.bad("iterpos(): the loop is not a range over a string", n)
 	case "fresh":
 		a := e.evalExpr(n.Args[0], env)
 		if a.Bad {
@@ -1370,6 +1474,13 @@ func (e *Enc) evalSpec(sf *SpecFn, n *ast.CallExpr, env *Env) Val {
 }
 
 // evalModTarget resolves a modifies clause to (object id term, type of modified memory).
+func callNameOf(c *ast.CallExpr) string {
+	if id, ok := c.Fun.(*ast.Ident); ok {
+		return id.Name
+	}
+	return ""
+}
+
 // sliceCells is a pseudo type standing for cap(x) consecutive elements (a modifies range whose size is symbolic).
 type sliceCells struct {
 	elem types.Type
@@ -1390,6 +1501,14 @@ func (e *Enc) modRange(off string, ft types.Type) (lo, hi string) {
 // evalModField: a modifies target of the form x.f where x is a pointer to a struct: the object, the offset of the
 // field inside it and the field's type. Field targets are havocked and checked at field granularity.
 func (e *Enc) evalModField(c Clause, env *Env) (obj, off string, ft types.Type, ok bool) {
+	if call, isCall := c.Expr.(*ast.CallExpr); isCall && callNameOf(call) == "bstr" && len(call.Args) == 1 {
+		// the ghost text of a strings.Builder: the Str cell at its address
+		a := e.evalExpr(call.Args[0], env)
+		if a.Bad || len(a.L) != 2 {
+			return "", "", nil, false
+		}
+		return a.L[0], a.L[1], types.Typ[types.String], true
+	}
 	if ix, isIx := c.Expr.(*ast.IndexExpr); isIx {
 		// x[*] for a slice x: the cells of its backing array from its first element up to its capacity
 		a := e.evalExpr(ix.X, env)
